@@ -110,6 +110,27 @@ def sources():
     return out
 
 
+def session_states(start, dt):
+    """what the REAL begin_session stores as clock parameters for a model with (start, dt): once with the session's
+    start time and dt left at their defaults, once with both given explicitly -> {style: (starttime, dt, step)}"""
+    import BPTK_Py
+    from BPTK_Py import Model
+    out = {}
+    for style in ("default-args", "explicit-args"):
+        m = Model(starttime=start, stoptime=G_py(start, dt, 4), dt=dt, name="clk")
+        c = m.constant("c")
+        c.equation = 1.0
+        b = BPTK_Py.bptk()
+        b.register_scenario_manager({"smc": {"model": m}})
+        b.register_scenarios(scenario_manager="smc", scenarios={"s": {}})
+        kw = {} if style == "default-args" else {"starttime": start, "dt": dt}
+        b.begin_session(scenarios=["s"], scenario_managers=["smc"], equations=["c"], **kw)
+        ss = b.session_state
+        out[style] = (float(ss["starttime"]), float(ss["dt"]), float(ss["step"]))
+        b.end_session()
+    return out
+
+
 # ------------------------------------------------------------------ obligations
 
 def obligations(src, start, dt, K, chains=True):
@@ -170,14 +191,22 @@ def obligations(src, start, dt, K, chains=True):
         ctx, G = new()
         chain = fp.fp_bin("sub", fp.fp_bin("sub", G(2), dt), dt)
         obs.append(("memo-key(G(k+2)-dt-dt)", fp.script(ctx, [neq(memo(ctx, chain), G(0))], ["k"])))
-    # 5 session clock
-    ctx, G = new()
-    sub = fp.Ctx([src["bptk_globals"], fpm.__dict__])
-    sub.decls, sub.asserts, sub.inlined, sub.n = ctx.decls, ctx.asserts, ctx.inlined, ctx.n
-    clk = fp.eval_expr(sub, src["clock"], {"step": G(0), "dt": dt, "self.session_state": {"starttime": start, "dt": dt, "step": None},
-                                           "starttime": start, "stoptime": None})
-    ctx.n = sub.n
-    obs.append(("session-clock", fp.script(ctx, [neq(clk, G(1))], ["k"])))
+    # 5 session clock: the parameters are those the real begin_session stores (concretely, per lattice point)
+    done = {}
+    for style, (ss_start, ss_dt, ss_step) in sorted(session_states(start, dt).items(), reverse=True):
+        if ss_step != float(start):
+            obs.append(("session-start@" + style, "CONCRETE begin_session puts the clock at %r, the model starts at %r" % (ss_step, start)))
+        if (ss_start, ss_dt) in done:
+            continue                                   # same parameters: the obligation already emitted covers this style
+        done[(ss_start, ss_dt)] = style
+        ctx, G = new()
+        g0 = G(0)
+        sub = fp.Ctx([src["bptk_globals"], fpm.__dict__])
+        sub.decls, sub.asserts, sub.inlined, sub.n = ctx.decls, ctx.asserts, ctx.inlined, ctx.n
+        clk = fp.eval_expr(sub, src["clock"], {"step": g0, "dt": ss_dt, "self.session_state": {"starttime": ss_start, "dt": ss_dt, "step": None},
+                                               "starttime": ss_start, "stoptime": None})
+        ctx.n = sub.n
+        obs.append(("session-clock" if style == "explicit-args" else "session-clock@" + style, fp.script(ctx, [neq(clk, G(1))], ["k"])))
     # reachability witness: the assumptions are satisfiable
     ctx, G = new()
     obs.append(("witness", fp.script(ctx, ["(fp.eq k %s)" % fp.fpconst(3.0)], ["k"])))
@@ -191,7 +220,10 @@ def replay(case):
     start, dt, k, name = float(case["start"]), float(case["dt"]), int(case["k"]), case["name"]
     g = lambda j: G_py(start, dt, k + j)
     prec = max(fpm.scale(start), fpm.scale(dt))
-    if name == "session-clock":
+    if name.startswith("session-start@"):
+        st = session_states(start, dt)[name.split("@")[1]]
+        return st[2] != start, "begin_session (%s) puts the clock at %r; the model starts at %r" % (name.split("@")[1], st[2], start)
+    if name.startswith("session-clock"):
         import BPTK_Py
         from BPTK_Py import Model
         m = Model(starttime=start, stoptime=g(2), dt=dt, name="clk")
@@ -200,7 +232,8 @@ def replay(case):
         b = BPTK_Py.bptk()
         b.register_scenario_manager({"smc": {"model": m}})
         b.register_scenarios(scenario_manager="smc", scenarios={"s": {}})
-        b.begin_session(scenarios=["s"], scenario_managers=["smc"], equations=["c"], starttime=start, dt=dt)
+        kw = {} if name.endswith("@default-args") else {"starttime": start, "dt": dt}
+        b.begin_session(scenarios=["s"], scenario_managers=["smc"], equations=["c"], **kw)
         b.session_state["step"] = g(0)
         b.run_step()
         got = b.session_state["step"]
@@ -272,7 +305,7 @@ def run(tier):
     from BPTK_Py.bptk import bptk
     from BPTK_Py.sdsimulation.sd_simulation import SdSimulation
     rep = harness.Report(PID, tier, "model_checking", MODULE)
-    rep.encoded(fpm.normalize, fpm.timerange, fpm.precision_and_scale, fpm.scale, Model.memoize, bptk.run_step,
+    rep.encoded(fpm.normalize, fpm.timerange, fpm.precision_and_scale, fpm.scale, Model.memoize, bptk.run_step, bptk.begin_session,
                 SdSimulation._SdSimulation__simulate)
     tmo = 170 if tier == "quick" else 900
     bad = validate_round(24 if tier == "quick" else 80, harness.seed())
@@ -287,6 +320,9 @@ def run(tier):
     for (start, dt, K, chains) in lattice(tier):
         try:
             for name, smt in obligations(src, start, dt, K, chains):
+                if smt.startswith("CONCRETE"):
+                    rep.candidate("session:start-position", {"start": start, "dt": dt, "k": 0, "name": name}, "start=%s dt=%s: %s" % (start, dt, smt))
+                    continue
                 jobs.append((start, dt, K, name, smt))
         except fp.Unsupported as e:
             rep.inconcl("encoding of (start=%s, dt=%s): %s" % (start, dt, e))
@@ -320,6 +356,8 @@ def run(tier):
                 rep.inconcl("%s (start=%s dt=%s): model could not be parsed" % (name, start, dt))
                 continue
             sig = "clock:step+dt" if name == "session-clock" else "%s:dt=%g" % (name, dt)
+            if name.startswith("session-clock@"):
+                sig = "clock:%s" % name.split("@")[1]
             rep.candidate(sig, {"start": start, "dt": dt, "k": int(k), "name": name},
                           "%s fails at start=%s dt=%s k=%d (t=%r)" % (name, start, dt, int(k), G_py(start, dt, int(k))))
         else:
@@ -337,6 +375,7 @@ def run(tier):
     rep.assume("binary64, round-to-nearest-even; Python round(y,p) = correctly rounded decimal rounding (half-even on the exact binary value), encoded exactly and validated against CPython on concrete doubles each run",
                "(start, dt) on the lattice; grid index 0 <= k <= K symbolic; |start + k*dt| < 2^50",
                "precision p is computed by the real precision_and_scale for each lattice point (concretely)",
+               "the session clock's parameters (start time, dt, first position) are read from the real begin_session run concretely per lattice point, with the session's start/dt arguments defaulted and given explicitly",
                "cvc5 --fp-exp decides; z3 5.1 cross-checks one obligation per run")
     rep.coverage.update({"states": len(jobs), "transitions": max(1, unsat), "traces_validated_against_impl": len(rep.cands),
                          "samples": samples, "per_lattice_point": per_point, "inlined_functions": ["floating_point.normalize"],
